@@ -100,8 +100,10 @@ def _checkpoint_path(
   return os.path.join(ckpt_dir, f'{prefix}{step}')
 
 
-def _checkpoint_path_step(path: str) -> float | None:
+def _checkpoint_path_step(path: str, base_path: str = '') -> float | None:
   """Returns the step number of a checkpoint path."""
+  if base_path and path.startswith(base_path):
+    path = path[len(base_path) :]
   for s in SIGNED_FLOAT_RE.split(path)[::-1]:
     if SIGNED_FLOAT_RE.match(s):
       return float(s)
@@ -344,13 +346,18 @@ def _restore_mpas(
   return state_dict
 
 
-def natural_sort(file_list: Iterable[str], signed: bool = True) -> list[str]:
+def natural_sort(
+  file_list: Iterable[str], signed: bool = True, prefix: str = ''
+) -> list[str]:
   """Natural sort for filenames with numerical substrings.
 
   Args:
     file_list: list of paths to sort containing numerical substrings.
     signed: bool: if leading '-' (or '+') signs should be included in numerical
       substrings as a sign or treated as a separator.
+    prefix: a common prefix of the paths (e.g. directory plus checkpoint
+      prefix) that is skipped when looking for numerical substrings, so that
+      digits, '-' or '.' at its end are not read as part of the step number.
 
   Returns:
     List of filenames sorted 'naturally', not lexicographically: any
@@ -367,6 +374,8 @@ def natural_sort(file_list: Iterable[str], signed: bool = True) -> list[str]:
       return s
 
   def split_keys(s):
+    if prefix and s.startswith(prefix):
+      s = s[len(prefix) :]
     return [maybe_num(c) for c in float_re.split(s)]
 
   return sorted(file_list, key=split_keys)
@@ -400,7 +409,7 @@ def _remove_invalid_ckpts(
     and not c.match(f'*{MP_ARRAY_POSTFIX}')
     and not c.match(f'*{ocp.utils.TMP_DIR_SUFFIX}*')
   ]
-  checkpoint_files = natural_sort(checkpoint_files)
+  checkpoint_files = natural_sort(checkpoint_files, prefix=base_path)
 
   # Remove newer checkpoints
   if overwrite and ckpt_path in checkpoint_files:
@@ -424,7 +433,7 @@ def _remove_invalid_ckpts(
     # Note: old_ckpts is sorted from oldest to newest.
     for path in old_ckpts:
       if keep_every_n_steps:
-        step_number = _checkpoint_path_step(path)
+        step_number = _checkpoint_path_step(path, base_path)
         if step_number and (step_number - last_kept) >= keep_every_n_steps:
           logging.debug(
             'Not deleting %s, because last_kept=%f and keeping '
@@ -521,7 +530,7 @@ def _check_overwrite_error(
     raise errors.InvalidCheckpointError(ckpt_path, step)
   checkpoint_files.append(ckpt_path)
 
-  checkpoint_files = natural_sort(checkpoint_files)
+  checkpoint_files = natural_sort(checkpoint_files, prefix=base_path)
   # Handle the case if the job was preempted after the temporary checkpoint
   # was written, but before it was renamed to the final checkpoint name
   if checkpoint_files[-1] == ckpt_tmp_path:
@@ -947,7 +956,9 @@ def _all_checkpoints(
     and not c.match(f'*{MP_ARRAY_POSTFIX}')
     and not c.match(f'*{ocp.utils.TMP_DIR_SUFFIX}*')
   ]
-  checkpoint_files = natural_sort(checkpoint_files)
+  checkpoint_files = natural_sort(
+    checkpoint_files, prefix=os.path.join(ckpt_dir, prefix)
+  )
   if checkpoint_files:
     return checkpoint_files
   else:
